@@ -268,3 +268,15 @@ CHECKS["C25"] = {
     "level_note": "sequences are sampled, not enumerated; only decodable packets are sent (undecodable ones are C20's subject); calls that never return are C28's subject",
     "design_ref": "3/C25",
 }
+
+CHECKS["C15"] = {
+    "level": "exploration",
+    "phases": [
+        {"name": "plain", "race": False, "test": "TestC15"},
+        {"name": "race", "race": True, "test": "TestC15", "tiers": ["thorough"]},
+    ],
+    "technique": "runtime monitoring: non-interference by differential replay (the observed session's recorded trace alone vs. beside 1-7 disturbing sessions of the same Gateway, virtual time) + real-socket run of ListenAndServe with several UDP peers and a fake TCP broker",
+    "level_text": "500 (quick) observed-session scripts are each replayed alone and beside up to seven other sessions that share the Gateway value (configuration, predefined topics) and do everything from registering the same names and reusing the same client ID to sending garbage and being shut down; the observed session's complete trace (bytes, order, virtual timestamps) must not change and its payloads must not appear elsewhere. Three runs through the real ListenAndServe accept loop on loopback check one broker connection and one identity per peer address.",
+    "level_note": "the disturbing sessions do not advance time (only then is the observed trace comparable); real-socket runs use short real timers and a watchdog whose expiry is inconclusive; race-detector reports of the thorough tier are diagnostics",
+    "design_ref": "3/C15",
+}
